@@ -150,6 +150,14 @@ HARNESS_FILES = {
     "cron": {
         "internal/scheduler/zz_verif_hooks.go": "go/hooks/scheduler_hooks_verif.go",
     },
+    "params": {
+        "internal/dag/zz_verif_hooks.go": "go/hooks/dag_params_hooks_verif.go",
+        "cmd/zz_verif_hooks.go": "go/hooks/cmd_hooks_verif.go",
+        "internal/client/zz_verif_hooks.go": "go/hooks/client_hooks_verif.go",
+    },
+    "log": {
+        "internal/dag/scheduler/zz_verif_hooks.go": "go/hooks/dagscheduler_hooks_verif.go",
+    },
 }
 
 
